@@ -45,6 +45,7 @@ type Step struct {
 	Payload []byte // packet payload; framed with the running sequence number
 	Raw     []byte // if non-nil, written verbatim instead (short packets etc.)
 	SeqSkew int    // added to the sequence number of this packet (out-of-sequence fault)
+	Short   int    // if > 0: the header promises the whole payload but only Short-1 payload bytes are sent
 	Then    Action
 	Tag     int // caller's label (e.g. index of the history event carried), reported to the gate
 }
@@ -430,6 +431,14 @@ func (p *ConnPlan) dump(c net.Conn, req Command) {
 		atomic.AddInt32(&p.started, 1)
 		if s.Raw != nil {
 			_, err = c.Write(s.Raw)
+		} else if s.Short > 0 {
+			n := s.Short - 1
+			if n > len(s.Payload) {
+				n = len(s.Payload)
+			}
+			hdr := []byte{byte(len(s.Payload)), byte(len(s.Payload) >> 8), byte(len(s.Payload) >> 16), seq}
+			_, err = c.Write(append(hdr, s.Payload[:n]...))
+			seq++
 		} else {
 			err = writePacket(c, seq+byte(s.SeqSkew), s.Payload)
 			seq++
